@@ -55,7 +55,7 @@ func (g *gen) verb(nargs int, explicitOK bool) string {
 		sb.WriteString(".")
 	}
 	letter := pick(g, "verbletter", "v", "v", "d", "d", "s", "s", "T", "t", "b", "c", "o", "O", "q", "x", "X", "U", "e", "E", "f", "F", "g", "G", "p", "w", "%", "z", "!", "y", "i", "ü", "")
-	if explicitOK && g.chance(25, "verbindex") {
+	if explicitOK && g.chance(45, "verbindex") {
 		g.feat("printf_indexed_verb")
 		// recorded finding: an explicitly indexed verb whose argument has the wrong type makes SA5009
 		// index the argument list by the sequential position; only %[n]v (every type is right) is kept
@@ -80,7 +80,7 @@ func (g *gen) format(nargs int) string {
 			nv = nargs - 1 // too many
 		}
 	}
-	explicitOK := g.chance(40, "explicit")
+	explicitOK := g.chance(55, "explicit")
 	for i := 0; i < nv; i++ {
 		parts = append(parts, g.verb(nargs, explicitOK))
 		if g.flip("text") {
@@ -97,7 +97,12 @@ func (g *gen) format(nargs int) string {
 const printfParams = "e any, err error, st fmt.Stringer, ps *struct{ a int }, fn func(), ch chan int, rest []any, w io.Writer"
 
 func (g *gen) printfArg(d int) string {
-	switch g.intn(0, 22, "pfarg") {
+	switch g.intn(0, 27, "pfarg") {
+	case 22, 23:
+		// values that already are interfaces
+		return pick(g, "pfiface", "e", "err", "st", "w", "any(fn)", "rest[0]", "error(nil)", "fmt.Stringer(nil)", "any(e)", "(e)")
+	case 24, 25, 26:
+		return pick(g, "pfbasic", "1", `"s"`, "ps.a", "true", "'x'", "1.5", "len(rest)", "&ps.a", "[]byte(nil)", "ch", "fn")
 	case 0:
 		return "e"
 	case 1:
@@ -253,7 +258,7 @@ func (g *gen) printfFunc() {
 		g.sc = &scope{}
 		defer func() { g.sc = save }()
 		var lines []string
-		for i, n := 0, g.intn(1, 5, "ncalls"); i < n; i++ {
+		for i, n := 0, g.intn(2, 8, "ncalls"); i < n; i++ {
 			lines = append(lines, g.printfCall(1))
 		}
 		return g.doc(name) + "func " + name + "(" + printfParams + ") {\n\t" + strings.Join(lines, "\n\t") + "\n}"
